@@ -5,16 +5,419 @@ open Std
 
 variable {κ ν : Type} {cmp : κ → κ → Ordering}
 
+/-! ### unfolding lemmas -/
+namespace AT
+
+@[simp] theorem toList_nil : (nil : AT κ ν).toList = [] := rfl
+@[simp] theorem toList_node (l : AT κ ν) (k : κ) (v : ν) (b : Int) (r : AT κ ν) :
+    (node l k v b r).toList = l.toList ++ (k, v) :: r.toList := rfl
+@[simp] theorem height_nil : (nil : AT κ ν).height = 0 := rfl
+@[simp] theorem height_node (l : AT κ ν) (k : κ) (v : ν) (b : Int) (r : AT κ ν) :
+    (node l k v b r).height = max l.height r.height + 1 := rfl
+@[simp] theorem size_nil : (nil : AT κ ν).size = 0 := rfl
+@[simp] theorem size_node (l : AT κ ν) (k : κ) (v : ν) (b : Int) (r : AT κ ν) :
+    (node l k v b r).size = l.size + 1 + r.size := rfl
+@[simp] theorem inv_nil : (nil : AT κ ν).Inv := trivial
+theorem inv_node (l : AT κ ν) (k : κ) (v : ν) (b : Int) (r : AT κ ν) :
+    (node l k v b r).Inv ↔
+      l.Inv ∧ r.Inv ∧ b = (l.height : Int) - (r.height : Int) ∧ -1 ≤ b ∧ b ≤ 1 := Iff.rfl
+@[simp] theorem bfOf_nil : (nil : AT κ ν).bfOf = 0 := rfl
+@[simp] theorem bfOf_node (l : AT κ ν) (k : κ) (v : ν) (b : Int) (r : AT κ ν) :
+    (node l k v b r).bfOf = b := rfl
+
+/-! ### insert retracing -/
+
+set_option linter.unusedSimpArgs false in
+theorem grewLeft_spec (c : AT κ ν) (k : κ) (v : ν) (b : Int) (r : AT κ ν) (hl : Nat)
+    (hc : c.height = hl + 1) (hb : b = (hl : Int) - (r.height : Int)) (hb1 : -1 ≤ b) (hb2 : b ≤ 1)
+    (hic : c.Inv) (hir : r.Inv) (hnz : c.bfOf ≠ 0 ∨ c.height ≤ 1) :
+    ∃ t' g, grewLeft c k v b r = some (t', g) ∧ t'.toList = c.toList ++ (k, v) :: r.toList ∧
+      t'.Inv ∧ t'.height = max hl r.height + 1 + (if g then 1 else 0) ∧
+      (g = true → t'.bfOf ≠ 0 ∨ t'.height ≤ 1) := by
+  by_cases hb' : b = 1
+  · cases c with
+    | nil => simp at hc
+    | node cl ck cv cb cr =>
+      simp only [inv_node, height_node, bfOf_node] at hic hc hnz
+      obtain ⟨hicl, hicr, hcb, hcb1, hcb2⟩ := hic
+      by_cases hcb' : cb = -1
+      · cases cr with
+        | nil => simp at hcb; omega
+        | node ml mk mv mb mr =>
+          simp only [inv_node, height_node] at hicr hc hcb
+          obtain ⟨himl, himr, hmb, hmb1, hmb2⟩ := hicr
+          refine ⟨rotLR cl ck cv ml mk mv mb mr k v r, false, by simp [grewLeft, hb', hcb'],
+            by simp [rotLR], ?_, ?_, by simp⟩
+          · have : mb = 1 ∨ mb = 0 ∨ mb = -1 := by omega
+            rcases this with h | h | h <;>
+              simp [rotLR, dblBf, h, inv_node, *] <;> omega
+          · simp [rotLR]; omega
+      · refine ⟨rotR cl ck cv cb cr k v r, false, by simp [grewLeft, hb', hcb'],
+            by simp [rotR], ?_, ?_, by simp⟩
+        · simp [rotR, inv_node, *]; omega
+        · simp [rotR]; omega
+  · by_cases hb'' : b = -1
+    · refine ⟨node c k v 0 r, false, by simp [grewLeft, hb''], by simp, ?_, ?_, by simp⟩
+      · simp [inv_node, *]; omega
+      · simp; omega
+    · refine ⟨node c k v 1 r, true, by simp [grewLeft, hb', hb''], by simp, ?_, ?_, by simp⟩
+      · simp [inv_node, *]; omega
+      · simp; omega
+
+set_option linter.unusedSimpArgs false in
+theorem grewRight_spec (l : AT κ ν) (k : κ) (v : ν) (b : Int) (c : AT κ ν) (hr : Nat)
+    (hc : c.height = hr + 1) (hb : b = (l.height : Int) - (hr : Int)) (hb1 : -1 ≤ b) (hb2 : b ≤ 1)
+    (hil : l.Inv) (hic : c.Inv) (hnz : c.bfOf ≠ 0 ∨ c.height ≤ 1) :
+    ∃ t' g, grewRight l k v b c = some (t', g) ∧ t'.toList = l.toList ++ (k, v) :: c.toList ∧
+      t'.Inv ∧ t'.height = max l.height hr + 1 + (if g then 1 else 0) ∧
+      (g = true → t'.bfOf ≠ 0 ∨ t'.height ≤ 1) := by
+  by_cases hb' : b = -1
+  · cases c with
+    | nil => simp at hc
+    | node cl ck cv cb cr =>
+      simp only [inv_node, height_node, bfOf_node] at hic hc hnz
+      obtain ⟨hicl, hicr, hcb, hcb1, hcb2⟩ := hic
+      by_cases hcb' : cb = 1
+      · cases cl with
+        | nil => simp at hcb; omega
+        | node ml mk mv mb mr =>
+          simp only [inv_node, height_node] at hicl hc hcb
+          obtain ⟨himl, himr, hmb, hmb1, hmb2⟩ := hicl
+          refine ⟨rotRL l k v ml mk mv mb mr ck cv cr, false, by simp [grewRight, hb', hcb'],
+            by simp [rotRL], ?_, ?_, by simp⟩
+          · have : mb = 1 ∨ mb = 0 ∨ mb = -1 := by omega
+            rcases this with h | h | h <;>
+              simp [rotRL, dblBf, h, inv_node, *] <;> omega
+          · simp [rotRL]; omega
+      · refine ⟨rotL l k v cl ck cv cb cr, false, by simp [grewRight, hb', hcb'],
+            by simp [rotL], ?_, ?_, by simp⟩
+        · simp [rotL, inv_node, *]; omega
+        · simp [rotL]; omega
+  · by_cases hb'' : b = 1
+    · refine ⟨node l k v 0 c, false, by simp [grewRight, hb''], by simp, ?_, ?_, by simp⟩
+      · simp [inv_node, *]; omega
+      · simp; omega
+    · refine ⟨node l k v (-1) c, true, by simp [grewRight, hb', hb''], by simp, ?_, ?_, by simp⟩
+      · simp [inv_node, *]; omega
+      · simp; omega
+
+/-- `ins` never dereferences NULL, inserts into the in-order listing, keeps the invariant, and
+    reports growth correctly; a grown subtree is a fresh leaf or has a non-zero balance factor -/
+theorem ins_spec [TransCmp cmp] (t : AT κ ν) (x : κ) (y : ν) (ho : SM.Sorted cmp t.toList)
+    (hi : t.Inv) :
+    ∃ t' g, t.ins cmp x y =
+        some (t', g, (SM.find cmp t.toList x).isNone, (SM.find cmp t.toList x).toList) ∧
+      t'.toList = SM.insert cmp t.toList x y ∧ t'.Inv ∧
+      t'.height = t.height + (if g then 1 else 0) ∧ (g = true → t'.bfOf ≠ 0 ∨ t'.height ≤ 1) := by
+  induction t with
+  | nil =>
+    exact ⟨node nil x y 0 nil, true, by simp [ins, SM.find], by simp [SM.insert],
+      by simp [inv_node], by simp, by simp⟩
+  | node l k v b r ihl ihr =>
+    rw [toList_node] at ho
+    have hs := SM.sorted_append_cons.mp ho
+    obtain ⟨hil, hir, hb, hb1, hb2⟩ := (inv_node ..).mp hi
+    cases hc : cmp x k with
+    | lt =>
+      obtain ⟨l', g, h1, h2, h3, h4, h5⟩ := ihl hs.1 hil
+      have hf := SM.find_mid_lt ho hc
+      have hins := SM.insert_mid_lt (v := y) ho hc
+      cases g with
+      | false =>
+        simp at h4
+        exact ⟨node l' k v b r, false, by simp [ins, hc, h1, hf], by simp [h2, hins],
+          (inv_node ..).mpr ⟨h3, hir, by omega, hb1, hb2⟩, by simp [h4], by simp⟩
+      | true =>
+        obtain ⟨t', g', e1, e2, e3, e4, e5⟩ :=
+          grewLeft_spec l' k v b r l.height (by simpa using h4) hb hb1 hb2 h3 hir (h5 rfl)
+        exact ⟨t', g', by simp [ins, hc, h1, e1, hf], by simp [e2, h2, hins], e3,
+          by simpa using e4, e5⟩
+    | gt =>
+      obtain ⟨r', g, h1, h2, h3, h4, h5⟩ := ihr hs.2.1 hir
+      have hf := SM.find_mid_gt ho hc
+      have hins := SM.insert_mid_gt (v := y) ho hc
+      cases g with
+      | false =>
+        simp at h4
+        exact ⟨node l k v b r', false, by simp [ins, hc, h1, hf], by simp [h2, hins],
+          (inv_node ..).mpr ⟨hil, h3, by omega, hb1, hb2⟩, by simp [h4], by simp⟩
+      | true =>
+        obtain ⟨t', g', e1, e2, e3, e4, e5⟩ :=
+          grewRight_spec l k v b r' r.height (by simpa using h4) hb hb1 hb2 hil h3 (h5 rfl)
+        exact ⟨t', g', by simp [ins, hc, h1, e1, hf], by simp [e2, h2, hins], e3,
+          by simpa using e4, e5⟩
+    | eq =>
+      have hf := SM.find_mid_eq ho hc
+      have hins := SM.insert_mid_eq (v := y) ho hc
+      exact ⟨node l x y b r, false, by simp [ins, hc, hf], by simp [hins],
+        (inv_node ..).mpr ⟨hil, hir, hb, hb1, hb2⟩, by simp, by simp⟩
+
+/-! ### removal retracing -/
+
+set_option linter.unusedSimpArgs false in
+theorem shrunkLeft_spec (l : AT κ ν) (k : κ) (v : ν) (b : Int) (r : AT κ ν) (hl : Nat)
+    (hh : l.height + 1 = hl) (hb : b = (hl : Int) - (r.height : Int)) (hb1 : -1 ≤ b) (hb2 : b ≤ 1)
+    (hil : l.Inv) (hir : r.Inv) :
+    ∃ t' s, shrunkLeft l k v b r = some (t', s) ∧ t'.toList = l.toList ++ (k, v) :: r.toList ∧
+      t'.Inv ∧ t'.height + (if s then 1 else 0) = max hl r.height + 1 := by
+  by_cases hb' : b = -1
+  · cases r with
+    | nil => simp at hb; omega
+    | node sl sk sv sb sr =>
+      simp only [inv_node, height_node] at hir hb
+      obtain ⟨hisl, hisr, hsb, hsb1, hsb2⟩ := hir
+      by_cases hsb' : sb = 1
+      · cases sl with
+        | nil => simp at hsb; omega
+        | node ml mk mv mb mr =>
+          simp only [inv_node, height_node] at hisl hb hsb
+          obtain ⟨himl, himr, hmb, hmb1, hmb2⟩ := hisl
+          refine ⟨rotRL l k v ml mk mv mb mr sk sv sr, true, by simp [shrunkLeft, hb', hsb'],
+            by simp [rotRL], ?_, ?_⟩
+          · have : mb = 1 ∨ mb = 0 ∨ mb = -1 := by omega
+            rcases this with h | h | h <;>
+              simp [rotRL, dblBf, h, inv_node, *] <;> omega
+          · simp [rotRL]; omega
+      · refine ⟨rotL l k v sl sk sv sb sr, decide (sb ≠ 0), by simp [shrunkLeft, hb', hsb'],
+            by simp [rotL], ?_, ?_⟩
+        · simp [rotL, inv_node, *]; omega
+        · have : sb = 0 ∨ sb = -1 := by omega
+          rcases this with h | h <;> simp [rotL, h] <;> omega
+  · by_cases hb'' : b = 0
+    · refine ⟨node l k v (-1) r, false, by simp [shrunkLeft, hb''], by simp, ?_, ?_⟩
+      · simp [inv_node, *]; omega
+      · simp; omega
+    · refine ⟨node l k v 0 r, true, by simp [shrunkLeft, hb', hb''], by simp, ?_, ?_⟩
+      · simp [inv_node, *]; omega
+      · simp; omega
+
+set_option linter.unusedSimpArgs false in
+theorem shrunkRight_spec (l : AT κ ν) (k : κ) (v : ν) (b : Int) (r : AT κ ν) (hr : Nat)
+    (hh : r.height + 1 = hr) (hb : b = (l.height : Int) - (hr : Int)) (hb1 : -1 ≤ b) (hb2 : b ≤ 1)
+    (hil : l.Inv) (hir : r.Inv) :
+    ∃ t' s, shrunkRight l k v b r = some (t', s) ∧ t'.toList = l.toList ++ (k, v) :: r.toList ∧
+      t'.Inv ∧ t'.height + (if s then 1 else 0) = max l.height hr + 1 := by
+  by_cases hb' : b = 1
+  · cases l with
+    | nil => simp at hb; omega
+    | node sl sk sv sb sr =>
+      simp only [inv_node, height_node] at hil hb
+      obtain ⟨hisl, hisr, hsb, hsb1, hsb2⟩ := hil
+      by_cases hsb' : sb = -1
+      · cases sr with
+        | nil => simp at hsb; omega
+        | node ml mk mv mb mr =>
+          simp only [inv_node, height_node] at hisr hb hsb
+          obtain ⟨himl, himr, hmb, hmb1, hmb2⟩ := hisr
+          refine ⟨rotLR sl sk sv ml mk mv mb mr k v r, true, by simp [shrunkRight, hb', hsb'],
+            by simp [rotLR], ?_, ?_⟩
+          · have : mb = 1 ∨ mb = 0 ∨ mb = -1 := by omega
+            rcases this with h | h | h <;>
+              simp [rotLR, dblBf, h, inv_node, *] <;> omega
+          · simp [rotLR]; omega
+      · refine ⟨rotR sl sk sv sb sr k v r, decide (sb ≠ 0), by simp [shrunkRight, hb', hsb'],
+            by simp [rotR], ?_, ?_⟩
+        · simp [rotR, inv_node, *]; omega
+        · have : sb = 0 ∨ sb = 1 := by omega
+          rcases this with h | h <;> simp [rotR, h] <;> omega
+  · by_cases hb'' : b = 0
+    · refine ⟨node l k v 1 r, false, by simp [shrunkRight, hb''], by simp, ?_, ?_⟩
+      · simp [inv_node, *]; omega
+      · simp; omega
+    · refine ⟨node l k v 0 r, true, by simp [shrunkRight, hb', hb''], by simp, ?_, ?_⟩
+      · simp [inv_node, *]; omega
+      · simp; omega
+
+theorem delMax_spec (r : AT κ ν) : ∀ (l : AT κ ν) (k : κ) (v : ν) (b : Int),
+    (node l k v b r).Inv →
+    ∃ t' s p, delMax l k v b r = some (t', s, p) ∧
+      (node l k v b r).toList = t'.toList ++ [p] ∧ t'.Inv ∧
+      t'.height + (if s then 1 else 0) = (node l k v b r).height := by
+  induction r with
+  | nil =>
+    intro l k v b hi
+    obtain ⟨hil, -, hb, hb1, hb2⟩ := (inv_node ..).mp hi
+    refine ⟨l, true, (k, v), by simp [delMax], by simp, hil, ?_⟩
+    simp
+  | node rl rk rv rb rr _ ih =>
+    intro l k v b hi
+    obtain ⟨hil, hir, hb, hb1, hb2⟩ := (inv_node ..).mp hi
+    obtain ⟨r', s, p, h1, h2, h3, h4⟩ := ih rl rk rv rb hir
+    cases s with
+    | false =>
+      have h4' : r'.height = (node rl rk rv rb rr).height := by simpa using h4
+      refine ⟨node l k v b r', false, p, by simp [delMax, h1], ?_,
+        (inv_node ..).mpr ⟨hil, h3, by rw [h4']; exact hb, hb1, hb2⟩, ?_⟩
+      · rw [toList_node, h2]; simp
+      · simp only [height_node] at h4' ⊢; simp; omega
+    | true =>
+      obtain ⟨t', s', e1, e2, e3, e4⟩ := shrunkRight_spec l k v b r' _ (by simpa using h4)
+        hb hb1 hb2 hil h3
+      refine ⟨t', s', p, by simp [delMax, h1, e1], ?_, e3, ?_⟩
+      · rw [toList_node, h2, e2]; simp
+      · rw [e4]; simp
+
+/-- `del` never dereferences NULL, erases from the in-order listing, keeps the invariant, and
+    reports shrinking correctly -/
+theorem del_spec [TransCmp cmp] (t : AT κ ν) (x : κ) (ho : SM.Sorted cmp t.toList) (hi : t.Inv) :
+    ∃ t' s, t.del cmp x =
+        some (t', s, (SM.find cmp t.toList x).isSome, (SM.find cmp t.toList x).toList) ∧
+      t'.toList = SM.erase cmp t.toList x ∧ t'.Inv ∧
+      t'.height + (if s then 1 else 0) = t.height := by
+  induction t with
+  | nil => exact ⟨nil, false, by simp [del, SM.find], by simp [SM.erase], by simp, by simp⟩
+  | node l k v b r ihl ihr =>
+    rw [toList_node] at ho
+    have hs := SM.sorted_append_cons.mp ho
+    obtain ⟨hil, hir, hb, hb1, hb2⟩ := (inv_node ..).mp hi
+    cases hc : cmp x k with
+    | lt =>
+      obtain ⟨l', s, h1, h2, h3, h4⟩ := ihl hs.1 hil
+      have hf := SM.find_mid_lt ho hc
+      have her := SM.erase_mid_lt ho hc
+      cases s with
+      | false =>
+        simp at h4
+        exact ⟨node l' k v b r, false, by simp [del, hc, h1, hf], by simp [h2, her],
+          (inv_node ..).mpr ⟨h3, hir, by omega, hb1, hb2⟩, by simp [h4]⟩
+      | true =>
+        obtain ⟨t', s', e1, e2, e3, e4⟩ :=
+          shrunkLeft_spec l' k v b r l.height (by simpa using h4) hb hb1 hb2 h3 hir
+        exact ⟨t', s', by simp [del, hc, h1, e1, hf], by simp [e2, h2, her], e3,
+          by simpa using e4⟩
+    | gt =>
+      obtain ⟨r', s, h1, h2, h3, h4⟩ := ihr hs.2.1 hir
+      have hf := SM.find_mid_gt ho hc
+      have her := SM.erase_mid_gt ho hc
+      cases s with
+      | false =>
+        simp at h4
+        exact ⟨node l k v b r', false, by simp [del, hc, h1, hf], by simp [h2, her],
+          (inv_node ..).mpr ⟨hil, h3, by omega, hb1, hb2⟩, by simp [h4]⟩
+      | true =>
+        obtain ⟨t', s', e1, e2, e3, e4⟩ :=
+          shrunkRight_spec l k v b r' r.height (by simpa using h4) hb hb1 hb2 hil h3
+        exact ⟨t', s', by simp [del, hc, h1, e1, hf], by simp [e2, h2, her], e3,
+          by simpa using e4⟩
+    | eq =>
+      rw [show SM.find cmp (node l k v b r).toList x = some (k, v) from SM.find_mid_eq ho hc,
+        show SM.erase cmp (node l k v b r).toList x = l.toList ++ r.toList from
+          SM.erase_mid_eq ho hc]
+      cases l with
+      | nil =>
+        refine ⟨r, true, by simp [del, hc], by simp, hir, ?_⟩
+        simp at hb ⊢
+      | node ll lk lv lb lr =>
+        cases r with
+        | nil =>
+          refine ⟨node ll lk lv lb lr, true, by simp [del, hc], by simp, hil, ?_⟩
+          simp at hb ⊢
+        | node rl rk rv rb rr =>
+          obtain ⟨l', s, p, h1, h2, h3, h4⟩ := delMax_spec lr ll lk lv lb hil
+          have hlist : l'.toList ++ (p.1, p.2) :: (node rl rk rv rb rr).toList =
+              (node ll lk lv lb lr).toList ++ (node rl rk rv rb rr).toList := by
+            rw [h2]; simp
+          cases s with
+          | false =>
+            have h4' : l'.height = (node ll lk lv lb lr).height := by simpa using h4
+            exact ⟨node l' p.1 p.2 b (node rl rk rv rb rr), false, by simp [del, hc, h1],
+              by rw [toList_node, hlist],
+              (inv_node ..).mpr ⟨h3, hir, by rw [h4']; exact hb, hb1, hb2⟩,
+              by simp only [height_node] at h4' ⊢; simp; omega⟩
+          | true =>
+            obtain ⟨t', s', e1, e2, e3, e4⟩ :=
+              shrunkLeft_spec l' p.1 p.2 b (node rl rk rv rb rr) (node ll lk lv lb lr).height
+                (by simpa using h4) hb hb1 hb2 h3 hir
+            exact ⟨t', s', by simp [del, hc, h1, e1], by rw [e2, hlist], e3,
+              by simpa using e4⟩
+
+end AT
+
+/-! ### one public call -/
+
+theorem avlStep_refines [TransCmp cmp] (op : Op κ ν) (t : AT κ ν) (n : Int) (l : List (κ × ν))
+    (ho : t.toBT.Ordered cmp) (hi : t.Inv) (hl : t.toList = l) (hn : n = l.length) :
+    ∃ t' n', avlStep cmp (t, n) op = some ((t', n'), (specStep cmp l op).2) ∧
+      t'.toList = (specStep cmp l op).1 ∧ t'.Inv ∧ t'.toBT.Ordered cmp ∧
+      n' = ((specStep cmp l op).1.length : Int) := by
+  subst hl
+  have hs : SM.Sorted cmp t.toList := ho
+  cases op with
+  | ins k v =>
+    obtain ⟨t', g, h1, h2, h3, -, -⟩ := AT.ins_spec (cmp := cmp) t k v hs hi
+    have hlen := SM.length_insert hs k v
+    have hn' : (if (SM.find cmp t.toList k).isNone then n + 1 else n) =
+        ((SM.insert cmp t.toList k v).length : Int) := by
+      rw [hlen, hn]; split <;> simp
+    refine ⟨t', (SM.insert cmp t.toList k v).length, ?_, h2, h3, ?_, rfl⟩
+    · simp only [avlStep, h1, Option.map_some, specStep, hn']
+    · show SM.Sorted cmp t'.toList
+      rw [h2]; exact SM.sorted_insert hs k v
+  | rem k =>
+    obtain ⟨t', s, h1, h2, h3, -⟩ := AT.del_spec (cmp := cmp) t k hs hi
+    have hlen := SM.length_erase hs k
+    have hn' : (if (SM.find cmp t.toList k).isSome then n - 1 else n) =
+        ((SM.erase cmp t.toList k).length : Int) := by
+      rw [hn, ← hlen]; split <;> simp
+    refine ⟨t', (SM.erase cmp t.toList k).length, ?_, h2, h3, ?_, rfl⟩
+    · simp only [avlStep, h1, Option.map_some, specStep, hn']
+    · show SM.Sorted cmp t'.toList
+      rw [h2]; exact SM.sorted_erase hs k
+  | get k =>
+    exact ⟨t, n, by simp [avlStep, specStep, BT.lookup_refines t.toBT ho k, AT.toList], rfl, hi, ho, hn⟩
+  | each j =>
+    exact ⟨t, n, by simp [avlStep, specStep, BT.foreachStop, AT.toList], rfl, hi, ho, hn⟩
+  | clear =>
+    exact ⟨.nil, 0, by simp [avlStep, specStep, hn], rfl, trivial,
+      by simp [BT.Ordered, AT.toBT, BT.toList, SM.Sorted], rfl⟩
+  | count =>
+    exact ⟨t, n, by simp [avlStep, specStep, hn], rfl, hi, ho, hn⟩
+
 /-- invariant of `avlRun` from any related pair of states: no NULL dereference, same outputs as the
     spec, and the AVL invariant at the end -/
 theorem avlRun_refines [TransCmp cmp] (ops : List (Op κ ν)) (t : AT κ ν) (n : Int) (l : List (κ × ν))
     (ho : t.toBT.Ordered cmp) (hi : t.Inv) (hl : t.toList = l) (hn : n = l.length) :
     ∃ s, avlRun cmp (t, n) ops = some (s, (specRun cmp l ops).2) ∧
       s.1.toList = (specRun cmp l ops).1 ∧ s.1.Inv := by
-  sorry
+  induction ops generalizing t n l with
+  | nil => exact ⟨(t, n), by simp [avlRun, specRun], by simpa [specRun] using hl, hi⟩
+  | cons op ops ih =>
+    obtain ⟨t', n', h1, h2, h3, h4, h5⟩ := avlStep_refines (cmp := cmp) op t n l ho hi hl hn
+    obtain ⟨s, e1, e2, e3⟩ := ih t' n' _ h4 h3 h2 h5
+    exact ⟨s, by simp [avlRun, specRun, h1, e1], by simpa [specRun] using e2, e3⟩
+
+/-! ### height bound -/
+
+theorem fib_le_succ (n : Nat) : fib n ≤ fib (n + 1) := by
+  induction n using fib.induct with
+  | case1 => decide
+  | case2 => decide
+  | case3 n ih1 ih2 => simp only [fib] at *; omega
+
+theorem fib_mono {m n : Nat} (h : m ≤ n) : fib m ≤ fib n := by
+  induction h with
+  | refl => exact Nat.le_refl _
+  | step _ ih => exact Nat.le_trans ih (fib_le_succ _)
 
 /-- an AVL tree of height `h` has at least `fib (h+2) − 1` nodes -/
 theorem AT.fib_le_size (t : AT κ ν) (hi : t.Inv) : fib (t.height + 2) ≤ t.size + 1 := by
-  sorry
+  induction t with
+  | nil => simp [fib]
+  | node l k v b r ihl ihr =>
+    obtain ⟨hil, hir, hb, hb1, hb2⟩ := (AT.inv_node ..).mp hi
+    have h1 := ihl hil
+    have h2 := ihr hir
+    simp only [AT.height_node, AT.size_node]
+    by_cases hlr : r.height ≤ l.height
+    · have hm : max l.height r.height = l.height := by omega
+      have h3 : fib (l.height + 1) ≤ fib (r.height + 2) := fib_mono (by omega)
+      have h4 : fib (l.height + 1 + 2) = fib (l.height + 1) + fib (l.height + 2) := by rw [fib]
+      rw [hm, h4]
+      omega
+    · have hm : max l.height r.height = r.height := by omega
+      have h3 : fib (r.height + 1) ≤ fib (l.height + 2) := fib_mono (by omega)
+      have h4 : fib (r.height + 1 + 2) = fib (r.height + 1) + fib (r.height + 2) := by rw [fib]
+      rw [hm, h4]
+      omega
 
 end PV.Tree
